@@ -221,6 +221,19 @@ def run(ctx):
                                 changed = True
         return t
 
+    cur_func = [None]
+
+    def displayable(x):
+        """str(x) of a production object whose __str__ may emit colour."""
+        f_ = cur_func[0]
+        ts = repo.expr_types(f_, x) if f_ is not None else set()
+        for t in ts:
+            if t[0] == 'inst':
+                c = t[1]
+                if c.find_method('__str__') is not None or any('__str__' in k.methods for k in repo.subclasses(c)):
+                    return True
+        return False
+
     def is_tainted(e, names):
         for x in ast.walk(e):
             if isinstance(x, ast.Call):
@@ -230,6 +243,8 @@ def run(ctx):
                 if nm in DISPLAY_CALLS:
                     if not inside_no_color(x):
                         return True
+                if nm == 'str' and isinstance(x.func, ast.Name) and len(x.args) == 1 and displayable(x.args[0]) and not inside_no_color(x):
+                    return True
             if isinstance(x, ast.Name) and x.id in names and not inside_no_color(x):
                 return True
         return False
@@ -246,9 +261,21 @@ def run(ctx):
         if f is f_color or f is f_noc:
             continue
         names = None
+        cur_func[0] = f
         for n in f.body_nodes():
             operand = None
             what = None
+            if isinstance(n, ast.Compare) and isinstance(n.ops[0], (ast.Eq, ast.NotEq, ast.In, ast.NotIn)):
+                if names is None:
+                    names = tainted_names(f)
+                sides = [n.left] + list(n.comparators)
+                lits = [x for x in sides if isinstance(x, ast.Constant) and isinstance(x.value, str)]
+                tainted_sides = [x for x in sides if not isinstance(x, ast.Constant) and is_tainted(x, names)]
+                if lits and tainted_sides:
+                    nlay += 1
+                    ctx.violation('C17.4', 'compare:%s:%s' % (f.qual, norm(n)[:50]), f.loc(n),
+                                  'rendered (possibly coloured) text `%s` is compared with a literal: the decision differs between colour on and off' % norm(tainted_sides[0])[:60])
+                continue
             if isinstance(n, ast.Call) and isinstance(n.func, ast.Name) and n.func.id == 'len' and n.args:
                 operand, what = n.args[0], 'len()'
             elif isinstance(n, ast.Call) and isinstance(n.func, ast.Attribute) and n.func.attr in ('ljust', 'rjust', 'center', 'zfill'):
